@@ -43,6 +43,12 @@ var wallPrograms = []string{
 	"(try (deref bgf) (catch e (deref bgspin)) (finally (deref bgf)))",
 	"(map deref [bgf bgspin])",
 	"(let [f (future (deref bgf))] (deref f))",
+	// handlers / finally bodies that are bare literals or symbols still start with a poll
+	// (explicit cancellation only: under a deadline the handler has its share of the budget and may well return)
+	"!cancel (try (spin 0) (catch e :swallowed))",
+	"!cancel (try (sleep 100000) (catch e nil))",
+	"!cancel (try (try (sleep 100000) (catch e 0)) (catch e2 \"outer\"))",
+	"!cancel (try (spin 0) (catch e e) (finally 1))",
 	// a future started by the evaluation must stop with it (its body runs under a context derived from the creator's)
 	"(do (future (tick 0)) (spin 0))",
 	"(do (def tf (future (tick 0))) (sleep 100000))",
@@ -61,14 +67,50 @@ const wallDefs = `(do
  nil)`
 
 func (e *cancelWallEngine) generate(r *rng, n int, tier string, emit func(string)) {
+	emit("window after=24ms")
+	emit("window after=18ms")
 	for i := 0; i < n; i++ {
 		p := i % len(wallPrograms)
 		kind := []string{"cancel", "deadline"}[r.intn(2)]
+		if strings.HasPrefix(wallPrograms[p], "!cancel ") {
+			kind = "cancel"
+		}
 		emit(fmt.Sprintf("%s after=%dms prog=%d", kind, 5+r.intn(40), p))
 	}
 }
 
+// window: "a timeout raised inside a try body can be caught, the handler still gets to run" — also when the try is
+// entered only a few milliseconds before the deadline (the body gets 80 % of what is left).  The handler's window is
+// then a few milliseconds, so the case is tried up to 12 times and passes as soon as the handler's value comes back once.
+func (e *cancelWallEngine) runWindow(afterMs int) string {
+	for attempt := 0; attempt < 12; attempt++ {
+		ec := &evalCase{}
+		env, err := freshEnv(ec)
+		if err != nil {
+			return "setup-error"
+		}
+		ast, err := lisp.READ("(try (sleep 100000) (catch e :caught))", nil, env)
+		if err != nil {
+			return "setup-error"
+		}
+		ctx, cancel := context.WithTimeout(context.Background(), time.Duration(afterMs)*time.Millisecond)
+		v, err := lisp.EVAL(ctx, ast, env)
+		cancel()
+		if err == nil && render(v) == render("\u029ecaught") {
+			return "ok"
+		}
+	}
+	return fmt.Sprintf("handler-never-ran\t!a timeout raised inside a try body entered %d ms before the deadline was never caught: the handler did not get to run in 12 attempts", afterMs)
+}
+
 func (e *cancelWallEngine) run(payload string) string {
+	if strings.HasPrefix(payload, "window ") {
+		var ms int
+		if _, err := fmt.Sscanf(payload, "window after=%dms", &ms); err != nil {
+			return "bad-case"
+		}
+		return e.runWindow(ms)
+	}
 	var kind string
 	var afterMs, p int
 	if _, err := fmt.Sscanf(strings.ReplaceAll(payload, "ms", ""), "%s after=%d prog=%d", &kind, &afterMs, &p); err != nil || p >= len(wallPrograms) {
@@ -89,7 +131,7 @@ func (e *cancelWallEngine) run(payload string) string {
 	if _, err := lisp.EVAL(setupCtx, defs, env); err != nil {
 		return "setup-error"
 	}
-	ast, err := lisp.READ(wallPrograms[p], nil, env)
+	ast, err := lisp.READ(strings.TrimPrefix(wallPrograms[p], "!cancel "), nil, env)
 	if err != nil {
 		return "setup-error"
 	}
